@@ -181,6 +181,76 @@ def generate(repo, cfg_inc):
             raise GenError(f"{pub}: `return s_encode_cursor_to_buffer(buffer, cursor, <fn>)` not found")
         app[pub] = m.group(1)
 
+    # 8. accessors, query wrappers, clean_up, list form: which field / cursor they use; fixed shape for the last two
+    acc = []
+    for fn in ("aws_uri_scheme", "aws_uri_authority", "aws_uri_path", "aws_uri_query_string", "aws_uri_path_and_query", "aws_uri_host_name"):
+        m = re.fullmatch(r"\{return&uri->(\w+);\}", _norm(fb(fn)))
+        if not m:
+            raise GenError(f"{fn}: body is no longer `return &uri-><field>;`")
+        acc.append((fn, m.group(1)))
+    m = re.fullmatch(r"\{returnuri->(\w+);\}", _norm(fb("aws_uri_port")))
+    if not m:
+        raise GenError("aws_uri_port: body is no longer `return uri-><field>;`")
+    acc.append(("aws_uri_port", m.group(1)))
+    m = re.fullmatch(r"\{returnaws_query_string_next_param\(uri->(\w+),param\);\}", _norm(fb("aws_uri_query_string_next_param")))
+    if not m:
+        raise GenError("aws_uri_query_string_next_param: no longer `return aws_query_string_next_param(uri-><field>, param);`")
+    acc.append(("aws_uri_query_string_next_param", m.group(1)))
+    m = re.fullmatch(r"\{returnaws_query_string_params\(uri->(\w+),out_params\);\}", _norm(fb("aws_uri_query_string_params")))
+    if not m:
+        raise GenError("aws_uri_query_string_params: no longer `return aws_query_string_params(uri-><field>, out_params);`")
+    acc.append(("aws_uri_query_string_params", m.group(1)))
+    if _norm(fb("aws_uri_clean_up")) != "{if(uri->uri_str.allocator){aws_byte_buf_clean_up(&uri->uri_str);}AWS_ZERO_STRUCT(*uri);}":
+        raise GenError("aws_uri_clean_up: no longer `if (uri_str.allocator) clean_up(uri_str); AWS_ZERO_STRUCT(*uri);`")
+    if _norm(fb("aws_query_string_params")) != ("{structaws_uri_paramparam;AWS_ZERO_STRUCT(param);while(aws_query_string_next_param(query_string_cursor,&param))"
+                                                "{if(aws_array_list_push_back(out_params,&param)){returnAWS_OP_ERR;}}returnAWS_OP_SUCCESS;}"):
+        raise GenError("aws_query_string_params: no longer the plain loop `while (next_param(cursor, &param)) push_back(out, &param)`")
+
+    # 9. the byte_buf.c helpers the parser and the decoder stand on (guards as integer expressions, the rest by shape)
+    bpath = os.path.join(repo, "source", "byte_buf.c")
+    try:
+        bsrc = _strip_comments(open(bpath).read())
+    except OSError as e:
+        raise GenError(f"cannot read byte_buf.c: {e}")
+
+    def unlikely(c):
+        m = re.fullmatch(r"AWS_(?:UN)?LIKELY\((.*)\)", c)
+        return m.group(1) if m else c
+    hb = function_body(bsrc, "aws_byte_cursor_read_hex_u8")
+    hex_len = unlikely(if_condition(hb, "cur->len", "aws_byte_cursor_read_hex_u8")).replace("cur->len", "cur_len")
+    hex_ok = unlikely(if_condition(hb, "hi !=", "aws_byte_cursor_read_hex_u8"))
+    m = re.search(r"\*var\s*=\s*([^;]+);", hb)
+    nh = _norm(hb)
+    if not m or "consthi=s_hex_to_num_table[cur->ptr[0]];" not in nh.replace("uint8_t", "") or \
+            "constlo=s_hex_to_num_table[cur->ptr[1]];" not in nh.replace("uint8_t", "") or "cur->ptr+=2;cur->len-=2;success=true;" not in nh:
+        raise GenError("aws_byte_cursor_read_hex_u8: table look-ups / `*var = …` / advance by 2 no longer have the known shape")
+    hex_val = " ".join(m.group(1).split())
+    for e, ids in ((hex_len, {"cur_len"}), (hex_ok, {"hi", "lo"}), (hex_val, {"hi", "lo"})):
+        if set(re.findall(r"\b[A-Za-z_]\w*\b", e)) - ids:
+            raise GenError(f"aws_byte_cursor_read_hex_u8: expression `{e}` mentions more than {sorted(ids)}")
+    rb = function_body(bsrc, "s_read_unsigned")
+    digit = if_condition(rb, "cval", "s_read_unsigned")
+    if set(re.findall(r"\b[A-Za-z_]\w*\b", digit)) - {"cval", "base"}:
+        raise GenError(f"s_read_unsigned: digit test `{digit}` mentions more than cval and base")
+    nr = _norm(rb)
+    if ("if(cursor.len==0){returnaws_raise_error(AWS_ERROR_INVALID_ARGUMENT);}" not in nr or
+            "if(aws_mul_u64_checked(val,base,&val)){returnaws_raise_error(AWS_ERROR_OVERFLOW_DETECTED);}"
+            "if(aws_add_u64_checked(val,cval,&val)){returnaws_raise_error(AWS_ERROR_OVERFLOW_DETECTED);}" not in nr or
+            "constuint8_tcval=hex_to_num_table[c];" not in nr):
+        raise GenError("s_read_unsigned: empty-input refusal / table look-up / checked multiply-add no longer have the known shape")
+    vb = function_body(bsrc, "aws_byte_buf_reserve")
+    res_noop = if_condition(vb, "requested_capacity <", "aws_byte_buf_reserve").replace("buffer->capacity", "buffer_capacity")
+    if set(re.findall(r"\b[A-Za-z_]\w*\b", res_noop)) - {"requested_capacity", "buffer_capacity"} or "buffer->capacity=requested_capacity;" not in _norm(vb):
+        raise GenError("aws_byte_buf_reserve: no-op test / `buffer->capacity = requested_capacity` no longer have the known shape")
+    ncp = _norm(function_body(bsrc, "aws_byte_buf_init_copy_from_cursor"))
+    if "dest->len=src.len;dest->capacity=src.len;dest->allocator=allocator;if(src.len>0){memcpy(dest->buffer,src.ptr,src.len);}" not in ncp:
+        raise GenError("aws_byte_buf_init_copy_from_cursor: len/capacity = src.len and memcpy(…, src.len) no longer have the known shape")
+    stubs += (f"static bool verif_bb_hex_enough(size_t cur_len) {{ return ({hex_len}); }}\n"
+              f"static bool verif_bb_hex_valid(uint8_t hi, uint8_t lo) {{ return ({hex_ok}); }}\n"
+              f"static uint8_t verif_bb_hex_value(uint8_t hi, uint8_t lo) {{ return ({hex_val}); }}\n"
+              f"static bool verif_bb_not_digit(uint8_t cval, uint8_t base) {{ return ({digit}); }}\n"
+              f"static bool verif_bb_reserve_noop(size_t requested_capacity, size_t buffer_capacity) {{ return ({res_noop}); }}\n")
+
     tu = f'#include "{path}"\n' + stubs
     info_alnum = {"kind": "value", "params": [("ch", (8, False))], "ret": (1, False), "outs": [], "abort": False}
     info_hex = {"kind": "value", "params": [("value", (8, False))], "ret": (8, False), "outs": [], "abort": False}
@@ -222,6 +292,15 @@ def generate(repo, cfg_inc):
             raise GenError(f"stub {name} was not parsed")
         text, info = tr(st[name], name)
         out += [f"/-- {docs[name]} -/", text]
+    bst = cfun.dump_functions(tu, "verif_bb_", inc)
+    bdocs = {"verif_bb_hex_enough": f"`aws_byte_cursor_read_hex_u8`: `{hex_len}`", "verif_bb_hex_valid": f"`aws_byte_cursor_read_hex_u8`: `{hex_ok}`",
+             "verif_bb_hex_value": f"`aws_byte_cursor_read_hex_u8`: `*var = {hex_val}`", "verif_bb_not_digit": f"`s_read_unsigned`: `{digit}`",
+             "verif_bb_reserve_noop": f"`aws_byte_buf_reserve`: `{res_noop}`"}
+    for name in bdocs:
+        if name not in bst:
+            raise GenError(f"stub {name} was not parsed")
+        text, info = tr(bst[name], name)
+        out += [f"/-- {bdocs[name]} -/", text]
     out += ["/-- `#define PORT_BUFFER_SIZE` (also the size of `port_arr` given to snprintf) -/",
             f"def PORT_BUFFER_SIZE : Nat := {consts['PORT_BUFFER_SIZE']}", "",
             "/-- `aws_mul_size_checked(<k>, cursor->len, &capacity_needed)` in `s_encode_cursor_to_buffer` -/",
@@ -234,6 +313,9 @@ def generate(repo, cfg_inc):
             "/-- per-character function passed by `aws_byte_buf_append_encoding_uri_path` / `_param` -/",
             f"def encodePathAppender : String := {_lean_str(app['aws_byte_buf_append_encoding_uri_path'])}",
             f"def encodeParamAppender : String := {_lean_str(app['aws_byte_buf_append_encoding_uri_param'])}", "",
+            "/-- the field each accessor returns / the cursor each query wrapper iterates (`aws_uri_clean_up` and",
+            "`aws_query_string_params` are checked by the generator to have their known shape) -/",
+            "def accessors : List (String × String) := [" + ", ".join(f"({_lean_str(a)}, {_lean_str(b)})" for a, b in acc) + "]", "",
             "end AwsVerif.Gen.UriFns", ""]
     meta = {"path_labels": path_labels, "param_labels": param_labels, "delim": delim, "bound": bound,
             "PORT_BUFFER_SIZE": consts["PORT_BUFFER_SIZE"], "factor": factor, "enc_callee": enc_callee}
